@@ -8,14 +8,7 @@ import sys
 HERE = os.path.dirname(os.path.dirname(os.path.abspath(__file__)))
 sys.path.insert(0, HERE)
 
-NOT_APPLICABLE = {
-    "C04": "value-level only: formulas, ranges and algebraic laws of real functions on [0,1]^2 have no faithful finite "
-           "abstraction; proving them is computer algebra / solving (another family). The one shape-level clause "
-           "(elementwise on arrays) is enforced by C02's elementwise-safety rule over all norm kernels.",
-    "C05": "value-level only: hedge formulas, [0,1]->[0,1], fixed points, monotonicity and inverse pairs are numeric facts; "
-           "the 0.5 branch point is a continuous switch so even its comparison operator is behaviour-neutral. The "
-           "elementwise clause is enforced by C02's elementwise-safety rule over all hedge kernels.",
-}
+NOT_APPLICABLE: dict[str, str] = {}
 ALL = [f"C{i:02d}" for i in range(1, 21)]
 
 
@@ -42,8 +35,8 @@ def main() -> None:
                 "category": "other",
                 "text": getattr(mod, "LEVEL_TEXT", None) or (
                     "Static analysis of /repo's current source (nothing executed): " + mod.EXPLANATION +
-                    ". Decides the structural clauses named in DESIGN.md for this property on every path / for every "
-                    "abstract case, not the numeric behaviour."),
+                    ". " + getattr(mod, "LEVEL_SCOPE", "Decides the structural clauses named in DESIGN.md for this property on every path / for every "
+                    "abstract case, not the numeric behaviour.")),
                 "design_ref": f"DESIGN.md section 3 ({pid})",
             },
             "level_note": "Trusted: CPython's ast parser, the analyser under /verif/sa, the specification tables of "
